@@ -581,6 +581,9 @@ def check_C16(A, R, tier):
     # next time it is needed it counts as 'inputs unchanged' and is held to an output it produced from other inputs
     from rules_history import rule_output_attached
     rule_output_attached(A, R, "R16.7")
+    # R16.8 (= R7.7): every not-yet-started dependant - also one that was already skipped as up to date - ends upstream-failed
+    from rules_more import rule_upstream_failure_reclassifies
+    rule_upstream_failure_reclassifies(A, R, "R16.8")
     # R16.4: 'inputs unchanged' (the Validated tag under which the check is made) is only concluded through comparisons (= R3.3)
     rule_validation_verdict(A, R, "R16.4")
     # nowhere else
@@ -905,6 +908,12 @@ def check_C03(A, R, tier):
     # the startup classification: the function whose loop hands out the jobs in (reverse) topological order
     from rules_more import loop_of_key
     rule_startup_detectors(A, R)
+    # R3.9 (= R7.7): a job skipped as up to date whose (Ephemeral) input then fails ends upstream-failed, not 'skipped': what it
+    # was built from no longer exists
+    from rules_more import rule_upstream_failure_reclassifies
+    rule_upstream_failure_reclassifies(A, R, "R3.9")
+    # R3.10 (= R15.4): 'as judged by the configured comparison' - the comparison is asked about the right pair of jobs
+    rule_comparison_pair(A, R, "R3.10")
     uvs, vt = rule_validation_verdict(A, R, "R3.3")
     # R3.5: a job of a kind without cleanup is skipped only under the 'validated' verdict
     sc = [A.facts.body(n) for n in sorted(consider_entry_fns(A, sk))]
@@ -1447,6 +1456,10 @@ def check_C06(A, R, tier):
     # R6.11 (= R3.4, defect F6): a job without any own record is invalidated at startup - validated instead, it is later compared
     # with records it does not have, or skipped without an output (both end in an internal error / a failed assertion)
     rule_startup_detectors(A, R, rename={"R3.4": "R6.11"})
+    # R6.12 (= R7.8): a dependency flagged as needed decides the summary's answer whatever state its downstream is in: the decision
+    # functions behind the summary treat 'not needed, but an Always consumer' as an internal error
+    from rules_more import rule_needed_flag_decides
+    rule_needed_flag_decides(A, R, "R6.12")
     # F7 is owned by C07 (R7.5); reference only
     R.explanation = ("Necessary conditions, each over all paths: state writes keep the kind (the kind-change panic is dead); explicit panics "
                      "outside the public API's argument checks are unreachable in the abstraction; every unwrap outside those checks is "
